@@ -858,11 +858,12 @@ func (p *parser) parseLetDecl() (decl ast.Decl, ident *ast.Ident) {
 
 	letPos := p.expect(token.LET)
 	if p.tok != token.IDENT {
-		c.closeNode(p, ident)
-		return nil, &ast.Ident{
+		ident = &ast.Ident{
 			NamePos: letPos,
 			Name:    "let",
 		}
+		c.closeNode(p, ident)
+		return nil, ident
 	}
 	defer func() { c.closeNode(p, decl) }()
 
